@@ -160,6 +160,7 @@ def h_abort_phase(phase: int, storage: str) -> None:
     """Abort after begin / after the k-th store / after vote; conflict during store; the callback that tpc_finish
     runs before the commit point raises (phase 6); then state unchanged."""
     with untraced():
+        locks.install()            # strict lock stubs: waiting for a lock one holds oneself raises instead of hanging
         env, s, h, pre = _mk(storage)
     k = choose(phase, 7)
     with untraced():
@@ -326,6 +327,7 @@ def h_fault_late(f: int, template: str, where: str, probe: bool = True) -> None:
     if where != 'abort':
         assume(f == 0)
     with untraced():
+        locks.install()            # strict lock stubs: waiting for a lock one holds oneself raises instead of hanging
         env, s, h = T.build_file(template)
         fs = env.fs
         t = T.meta(b'u', b'doomed')
